@@ -52,6 +52,10 @@ def option_items(tier):
         out.append((sp, dict(o, unit_time=3, max_time=o["max_time"] * 3)))
         for k in (1, 2, 3):
             out.append((sp, dict(o, resume_from=k)))
+        out.append((sp, dict(o, reload=True)))
+        for lst in ([1], [2, 1], [3, 1, 2], [0, 2]):
+            out.append((sp, dict(o, post_insert=lst)))
+            out.append((sp, dict(o, post_insert=lst, reload=True)))
     return out
 
 
@@ -66,7 +70,7 @@ def run(tier, seed):
         "rule": "FS workflows on 3 tasks x all cost-rate triples over {0,1,2.5} in two teams plus an empty team (runs to completion and runs cut by max_time=2 -> FAILURE) "
         "models whose workers and facilities share one name (different IDs), and the FAC family (workplaces with facilities of rates 1 and 2), each explored over all absence answers (project, each worker, each facility; thorough: also pairs) "
         "up to horizon H with <= D non-default answers; non-trivial = distinct (model, resource, charged rate>0, at-absence-step) events",
-        "bounds": {"H": H, "D": D, "base_models": len(its), "option_variants(unit_time 2/3, resumed at 1/2/3)": len(oi)},
+        "bounds": {"H": H, "D": D, "base_models": len(its), "option_variants(unit_time 2/3, resumed at 1/2/3, absence steps inserted afterwards in any order, loaded from JSON)": len(oi)},
         "assumptions": ["cost oracle reads the state logs; their agreement with the live state is C08's job"],
     }
     if not col.nontrivial:
